@@ -37,3 +37,23 @@ var propMeta = map[string]Meta{
 		QuickBudgetS: 240, ThoroughBudgetS: 2400,
 	},
 }
+
+func init() {
+	propMeta["C10"] = Meta{
+		Level: "exploration",
+		Rule: "Each evaluation is one seeded simulated run of the real session-setup runner (2-6 parties, sparse/large/unsorted ids, optionally two concurrent sessions on one Delivery) over the simulated network with reordering, duplication, redelivery and foreign injection, followed by the symmetry/separation/zero-sum oracle over every sub-quorum (all subsets for n<=5); the adversarial workload alters one leaf of one setup message of one corrupt party. Non-trivial = at least one non-FIFO delivery or injected fault. Distinct = hash of (workload, configuration class, decision trace, fault cell).",
+		Assumptions: []string{"every broadcast reaches all recipients identically (enforced by the real echo broadcast in runner mode)", "SHA-3 / cSHAKE outputs of distinct inputs are distinct (collision resistance) when seeds are compared for inequality"},
+		Real: []string{"pkg/mpc/session (participant, context, runner)", "pkg/mpc/zero/przs", "pkg/commitments/hashcom", "pkg/network router, echo broadcast, exchange", "pkg/transcripts/hagrid"},
+		Stub: commonStub, ExpectedProbes: []string{"dup", "redeliver", "inject", "second_session_compared", "subquorums_checked"},
+		QuickBudgetS: 120, ThoroughBudgetS: 1200,
+	}
+	propMeta["C03"] = Meta{
+		Level: "exploration",
+		Rule: "Each evaluation is one seeded simulated key generation: a generated access structure (threshold, unanimity, CNF, hierarchical, boolean/threshold tree; 2-6 holders; sparse/large ids) built twice (library object and independent reference predicate), a group, a protocol (Gennaro with one of three NIZK compilers, Canetti, trusted dealer), real session setup + DKG runners over the simulated network with benign faults, then the reference oracle over every subset of holders (n<=5), and persist / crash / reload on the simulated disk. Non-trivial = at least one non-FIFO delivery or injected fault (dealer runs: always counted, they have no schedule). Distinct = hash of (workload, configuration class, decision trace).",
+		Assumptions: []string{"reference arithmetic (math/big) for secp256k1, P-256, edwards25519, Pallas, Vesta and BLS12-381 G1 is independent of the library; for BLS12-381 G2 the public-key comparison uses the library's scalar multiplication (semi-independent)", "policies with a qualified singleton and CNF policies with a holder contained in every maximal unqualified set are not generated here (the latter is exercised by a dedicated workload)"},
+		Real: []string{"pkg/mpc/dkg/gennaro, canetti, trusteddealer", "pkg/mpc/session", "pkg/mpc/sharing (kw, msp, feldman, pedersen, access structures)", "pkg/mpc base shard encoding", "pkg/proofs (okamoto, batch schnorr, compilers)", "pkg/network router, echo, exchange", "curves and fields"},
+		Stub: append(append([]string{}, commonStub...), "disk (sim.Disk: write/sync/crash, lost/torn/bit-flipped images)"),
+		ExpectedProbes: []string{"dup", "redeliver", "inject", "multi_row_holder", "non_ideal_structure", "reloaded", "damaged_image_rejected", "independent_runs_compared", "family_threshold", "family_unanimity", "family_cnf", "family_hierarchical", "family_boolexpr"},
+		QuickBudgetS: 240, ThoroughBudgetS: 1800,
+	}
+}
